@@ -74,7 +74,7 @@ let run_copy_like op kv jobs (run : 'a -> z -> cmd_result) (dest_name : 'a -> st
         let now = nth_now ns i (clock0 kv) in
         let before = lookup (dest_name j) in
         let r = run j now in
-        let long = to_ = ToFull && nrecords r.r_out >= 150 in
+        let long = to_ = ToFull && nrecords r.r_out >= 110 in
         if long then begin
           (* the report fails while printing: no final Sync; a destination that had to be created
              keeps its synced header *)
